@@ -13,6 +13,7 @@ import (
 	"sync"
 	"testing"
 
+	"github.com/go-i2p/common/data"
 	"github.com/go-i2p/common/key_certificate"
 	"github.com/go-i2p/common/offline_signature"
 	"github.com/go-i2p/common/signature"
@@ -202,8 +203,24 @@ func callables(pv reflect.Value, op *engine.Op, valueBytes []byte) (methods []ca
 		switch {
 		case m.Type.NumIn() == 1:
 			methods = append(methods, callable{tname + "." + m.Name, func(sh reflect.Value, _ reflect.Value) string {
-				return obs.Results(sh.Method(idx).Call(nil), obsOpt)
+				outs := sh.Method(idx).Call(nil)
+				c := obs.Results(outs, obsOpt)
+				keep(outs, c)
+				return c
 			}})
+		case m.Type.NumIn() >= 2 && m.Type.NumIn() <= 3 && !(m.Name == "Equals" || m.Name == "Equal") && readOnlyName(m.Name):
+			// read-only methods that take simple arguments (GetOption, HasOption,
+			// CheckOption, IntroducerHashString, GetEntry, FindEntriesByType,
+			// VerifySignature(key bytes), ...): two fixed argument sets each
+			for variant := 0; variant < 2; variant++ {
+				args, ok := synthArgs(m.Type, variant)
+				if !ok {
+					break
+				}
+				methods = append(methods, callable{fmt.Sprintf("%s.%s(args%d)", tname, m.Name, variant), func(sh reflect.Value, _ reflect.Value) string {
+					return obs.Results(sh.Method(idx).Call(args), obsOpt)
+				}})
+			}
 		case m.Type.NumIn() == 2 && (m.Name == "Equals" || m.Name == "Equal"):
 			at := m.Type.In(1)
 			methods = append(methods, callable{tname + "." + m.Name + "(twin)", func(sh reflect.Value, tw reflect.Value) string {
@@ -256,6 +273,47 @@ func callables(pv reflect.Value, op *engine.Op, valueBytes []byte) (methods []ca
 	return
 }
 
+// readOnlyName excludes builders and mutators among the argument-taking methods.
+func readOnlyName(n string) bool {
+	for _, p := range []string{"Add", "Set", "With", "Build", "Zero", "Generate", "Decrypt", "Encrypt", "Sign", "New", "Remove", "Delete", "Append", "Reset", "Write", "Read", "Unmarshal", "Parse"} {
+		if strings.HasPrefix(n, p) {
+			return false
+		}
+	}
+	return true
+}
+
+var i2pStringType = reflect.TypeOf(data.I2PString{})
+
+// synthArgs builds an argument list for a method whose parameters are all of
+// simple kinds; ok=false if some parameter cannot be synthesised.
+func synthArgs(mt reflect.Type, variant int) ([]reflect.Value, bool) {
+	var args []reflect.Value
+	for i := 1; i < mt.NumIn(); i++ {
+		pt := mt.In(i)
+		switch {
+		case pt == i2pStringType:
+			str, _ := data.ToI2PString([]string{"host", "caps"}[variant])
+			args = append(args, reflect.ValueOf(str))
+		case pt.Kind() == reflect.String:
+			args = append(args, reflect.ValueOf([]string{"host", "port"}[variant]).Convert(pt))
+		case pt.Kind() >= reflect.Int && pt.Kind() <= reflect.Int64:
+			args = append(args, reflect.ValueOf([]int64{0, 2}[variant]).Convert(pt))
+		case pt.Kind() >= reflect.Uint && pt.Kind() <= reflect.Uint64:
+			args = append(args, reflect.ValueOf([]uint64{3, 1}[variant]).Convert(pt))
+		case pt.Kind() == reflect.Slice && pt.Elem().Kind() == reflect.Uint8 && pt.PkgPath() == "":
+			b := make([]byte, 32)
+			b[0] = byte(variant)
+			args = append(args, reflect.ValueOf(b))
+		case pt.Kind() == reflect.Bool:
+			args = append(args, reflect.ValueOf(variant == 1))
+		default:
+			return nil, false
+		}
+	}
+	return args, true
+}
+
 func private2(op *engine.Op) reflect.Value {
 	v, _, _, ok := makeValue(op)
 	if !ok {
@@ -264,7 +322,17 @@ func private2(op *engine.Op) reflect.Value {
 	return ptrTo(v)
 }
 
+// kept remembers what a call returned (the values themselves, not copies)
+// and their canonical form at return time; the controller re-reads them after
+// all tasks have finished (a result that changes later was handed out from a
+// pooled or shared buffer).
+type kept struct {
+	vals  []reflect.Value
+	canon string
+}
+
 type taskCall struct {
+	kept []kept
 	twinSolo, twinConc reflect.Value
 	c      callable
 	want   string
@@ -309,6 +377,16 @@ func awayFromNow(sh *engine.Shape) {
 	}
 	for i := range sh.Sub {
 		awayFromNow(&sh.Sub[i])
+	}
+}
+
+// keepSink is where the running call deposits its raw results; each task sets
+// it to its own call record before calling (one task runs at a time).
+var keepSink *taskCall
+
+func keep(vals []reflect.Value, canon string) {
+	if keepSink != nil {
+		keepSink.kept = append(keepSink.kept, kept{vals, canon})
 	}
 }
 
@@ -422,7 +500,9 @@ func execute(s *engine.Script, o *engine.Outcome) {
 			taskWait(id)
 			for _, tc := range tasks[id] {
 				taskEnter(id)
+				setSink(tc)
 				tc.got, _ = safeCall(tc.c, sharedPtr, tc.twinConc)
+				setSink(nil)
 				taskLeave(id)
 			}
 			taskDone(id)
@@ -449,6 +529,15 @@ func execute(s *engine.Script, o *engine.Outcome) {
 				o.Violate("C18/result-differs-from-solo-execution/"+tc.c.name, "task %d call %d %s on a shared %s: %s", id, ci, tc.c.name, vop.Struct, diff(tc.want, tc.got))
 			}
 			o.FP.Step("call", id, ci, tc.c.name, tc.got)
+		}
+	}
+	for id, calls := range tasks {
+		for ci, tc := range calls {
+			for _, k := range tc.kept {
+				if now := obs.Results(k.vals, obsOpt); now != k.canon {
+					o.Violate("C18/returned-value-changed-after-return/"+tc.c.name, "task %d call %d %s: the value it returned reads differently after the other tasks ran: %s", id, ci, tc.c.name, diff(k.canon, now))
+				}
+			}
 		}
 	}
 	if after := snap.Of(sharedPtr.Interface()); after != before {
